@@ -89,6 +89,34 @@ func load(o loadOpts) (*Prog, error) {
 	if len(p.Pkgs) < 60 {
 		return nil, fmt.Errorf("only %d mosdns packages loaded (expected >= 60)", len(p.Pkgs))
 	}
+	// canonical declaring type of every struct (see structCanon)
+	canon := map[*types.Struct]*types.Named{}
+	for _, pk := range p.Pkgs {
+		for _, file := range pk.Syntax {
+			ast.Inspect(file, func(n ast.Node) bool {
+				ts, ok := n.(*ast.TypeSpec)
+				if !ok {
+					return true
+				}
+				if _, isStruct := ts.Type.(*ast.StructType); !isStruct {
+					return true
+				}
+				if obj, ok := pk.TypesInfo.Defs[ts.Name].(*types.TypeName); ok {
+					if named, ok := obj.Type().(*types.Named); ok {
+						if st, ok := named.Underlying().(*types.Struct); ok {
+							canon[st] = named
+						}
+					}
+				}
+				return true
+			})
+		}
+	}
+	structCanonMu.Lock()
+	for k, v := range canon {
+		structCanon[k] = v
+	}
+	structCanonMu.Unlock()
 	prog, spkgs := ssautil.Packages(p.Pkgs, ssa.InstantiateGenerics*0)
 	p.SSA = prog
 	for i, sp := range spkgs {
